@@ -39,13 +39,9 @@ func (m *Machine) unop(instr *ssa.UnOp, x value) value {
 		return m.tt.BNot(x.(*Term))
 	case token.ARROW:
 		ch := x.(*chanV)
-		if ch == nil || len(ch.buf) == 0 {
-			panic(m.unsupported("receive on empty channel (would block)"))
-		}
-		v := ch.buf[0]
-		ch.buf = ch.buf[1:]
+		v, ok := m.chanRecv(ch, typeOfChanElem(instr.X.Type()))
 		if instr.CommaOk {
-			return tuple{v, m.tt.True}
+			return tuple{v, m.tt.Bool(ok)}
 		}
 		return v
 	}
